@@ -85,7 +85,16 @@ func dialFrom(addr, peer string) (*Peer, error) {
 	if peer == "nl" {
 		d.LocalAddr = &net.TCPAddr{IP: net.ParseIP(NonLoopback)}
 	}
-	c, err := d.Dial("tcp", addr)
+	// (hundreds of thousands of short connections: wait for ephemeral ports to come back instead of failing)
+	var c net.Conn
+	var err error
+	for try := 0; try < 200; try++ {
+		c, err = d.Dial("tcp", addr)
+		if err == nil || !strings.Contains(err.Error(), "cannot assign requested address") {
+			break
+		}
+		time.Sleep(100 * time.Millisecond)
+	}
 	if err != nil {
 		return nil, err
 	}
@@ -97,6 +106,10 @@ func dialFrom(addr, peer string) (*Peer, error) {
 
 func (p *Peer) Close() {
 	if p != nil && p.c != nil {
+		// reset instead of FIN: no TIME_WAIT, the ephemeral port is free at once
+		if tc, ok := p.c.(*net.TCPConn); ok {
+			tc.SetLinger(0)
+		}
 		p.c.Close()
 	}
 }
